@@ -59,6 +59,7 @@ type lm struct {
 	stuck     error
 	genesisIssuerIn bool // some transfer targets the genesis issuer address
 	pendingCreated  []lmCreated
+	twinsDiverged   bool
 }
 
 type lmCreated struct {
